@@ -189,4 +189,10 @@ func init() {
 	// ---------------- C08.R6
 	mut("C08", "the codec forgets the state before the previous one", "core/pkg/distribution/framer/codec/codec.go",
 		"			c.mu.states[c.mu.seqNum] = s\n", "			c.mu.states[c.mu.seqNum] = s\n			delete(c.mu.states, c.mu.seqNum-2)\n", "C08.R6.states")
+
+	// ---------------- C17.R7, C07.R2 end
+	mut("C17", "getLocked hands out the live bucket", "x/go/gorp/index.go",
+		"	out := make([]K, len(src))\n	copy(out, src)\n	return out\n}", "	return src\n}", "C17.R7.alias")
+	mut("C07", "the acknowledged commit end is the smallest leaseholder end", "core/pkg/distribution/framer/writer/synchronizer.go",
+		"res.End > s.cycle.res.End", "res.End < s.cycle.res.End", "C07.R2.sync")
 }
